@@ -5,14 +5,14 @@ from .. import core, dkggen
 ID = "C08"
 MODULE = "DrandProofs.C08"
 THEOREMS = ["Drand.DKG." + t for t in [
-    "tie_transition_table", "tie_terminal", "tie_proposal_phase", "c08_legal", "c08_error_no_write",
+    "tie_transition_table", "tie_terminal", "tie_proposal_phase", "tie_process_steps_atomic", "c08_legal", "c08_error_no_write",
     "c08_finished_only_by_completion", "c08_completion_whole", "c08_epoch_inv_step", "c08_finished_monotone",
     "c08_epoch_inv_run", "c08_retry_same_epoch", "c08_rejects_stale_epoch", "c08_rejects_same_epoch_unless_terminal",
     "c08_rejects_epoch_jump", "c08_rejects_expired", "c08_rejects_threshold_high", "c08_rejects_threshold_low",
     "c08_rejects_unknown_scheme", "c08_rejects_bad_joiner_signature", "c08_member_rejects", "c08_member_rejects_scheme_period", "c08_first_epoch_rejects",
     "c08_epoch_monotone_partial", "c08_epoch_counterexample"]]
 TRUSTED = ["Lean 4 kernel; axioms per theorem under coverage.axioms",
-           "go2lean: Status enum, isValidStateChange switch, isProposalPhase, terminalStates, scheme ids (regenerated, tied by tie_* theorems)",
+           "go2lean: Status enum, isValidStateChange switch, isProposalPhase, terminalStates, scheme ids, and that Process.Command / Process.Packet take the process mutex before touching process state and hold it until they return (regenerated, tied by tie_* theorems)",
            "harness engine 'dkgsm': a real dkg.Process on a real dkg BoltStore; other parties' packets are made and signed by the harness with real keys; the kyber execution is replaced by harness-driven complete/fail events that call Complete+SaveFinished / Failed+SaveCurrent exactly as executeAndFinishDKG does (export shim)",
            "modelled, not verified: bbolt transactions of the dkg store, BurntSushi/toml round-trip of DBState (C20), time.Now (timeouts are set >= 1 h away from the wall clock)",
            "excluded by hypothesis: the deprecated v1->v2 key-migration branch of StartProposal"]
